@@ -92,6 +92,8 @@ struct Sched {
     threads: usize,
     /// max_idle_period in ms (0 = default 2 min, i.e. never during the schedule)
     idle_ms: u64,
+    /// max_cached_paths_per_pair (None = default 50)
+    cap: Option<usize>,
     ops: Vec<Op>,
 }
 
@@ -116,7 +118,16 @@ fn sched_line(s: &Sched) -> String {
             Op::Sync => "Y".into(),
         })
         .collect();
-    format!("rt={} idle={} ops={}", if s.threads == 0 { "ct".to_string() } else { format!("mt{}", s.threads) }, s.idle_ms, ops.join(";"))
+    format!(
+        "rt={} idle={}{} ops={}",
+        if s.threads == 0 { "ct".to_string() } else { format!("mt{}", s.threads) },
+        s.idle_ms,
+        match s.cap {
+            Some(c) => format!(" cap={c}"),
+            None => String::new(),
+        },
+        ops.join(";")
+    )
 }
 
 fn parse_resp(s: &str) -> Option<Resp> {
@@ -131,6 +142,7 @@ fn parse_resp(s: &str) -> Option<Resp> {
 fn parse_sched(line: &str) -> Option<Sched> {
     let mut threads = 0usize;
     let mut idle_ms = 0u64;
+    let mut cap = None;
     let mut ops = vec![];
     for tok in line.split_whitespace() {
         let (k, v) = tok.split_once('=')?;
@@ -139,6 +151,7 @@ fn parse_sched(line: &str) -> Option<Sched> {
                 threads = if v == "ct" { 0 } else { v.strip_prefix("mt")?.parse().ok()? };
             }
             "idle" => idle_ms = v.parse().ok()?,
+            "cap" => cap = Some(v.parse().ok()?),
             "ops" => {
                 for o in v.split(';').filter(|x| !x.is_empty()) {
                     let p: Vec<&str> = o.split('.').collect();
@@ -167,7 +180,7 @@ fn parse_sched(line: &str) -> Option<Sched> {
             _ => return None,
         }
     }
-    Some(Sched { threads, idle_ms, ops })
+    Some(Sched { threads, idle_ms, cap, ops })
 }
 
 // ---------------------------------------------------------------------------------------------------------
@@ -798,6 +811,9 @@ async fn run_sched_async(s: &Sched, lean: &mut Lean) -> Outcome {
     if s.idle_ms > 0 {
         cfg = cfg.with_max_idle_period(Duration::from_millis(s.idle_ms));
     }
+    if let Some(c) = s.cap {
+        cfg = cfg.with_max_cached_paths_per_pair(c);
+    }
     let mgr = match MultiPathManager::new(cfg, GFetcher(gate.clone()), PathStrategy::default()) {
         Ok(m) => m,
         Err(e) => {
@@ -1201,7 +1217,7 @@ fn gen_sched(rng: &mut Rng) -> Sched {
         ops.push(Op::ReleaseAll { resp: pick_resp(rng) });
         ops.push(Op::IdleWait);
     }
-    Sched { threads, idle_ms, ops }
+    Sched { threads, idle_ms, cap: None, ops }
 }
 
 /// best-effort shrinking: drop operations while the same kind of failure persists
